@@ -60,7 +60,15 @@ static _Bool keylt(const struct uf *s, unsigned long i, unsigned long j) {
      EVOLVE(a,b) = INV(b), b.n == a.n, for all i < n: (non-root in a => non-root in b with the same frozen rank),
                    keyrank_b(i) >= keyrank_a(i), for all j < n: a.set[i] == a.set[j] => b.set[i] == b.set[j]
      STILL(a,b)  = b.n == a.n, for all i < n: root-ness, ranks of roots and class labels unchanged */
-#include "uf_gen.h"
+#if VX_N == 3
+#include "uf_gen_3.h"
+#elif VX_N == 4
+#include "uf_gen_4.h"
+#elif VX_N == 5
+#include "uf_gen_5.h"
+#else
+#error "no generated predicates for this VX_N"
+#endif
 static _Bool same(const struct uf *s, unsigned long i, unsigned long j) { return s->set[i] == s->set[j]; }
 /* sequential functional contract of a union: classes afterwards = classes before with class(x) and class(y) merged */
 static _Bool MERGED(const struct uf *a, const struct uf *b, unsigned long x, unsigned long y) {
